@@ -28,7 +28,8 @@ Adv == l' = l + 1
 If(c, name) == IF c THEN {name} ELSE {}
 
 VerdictOf ==
-  [ C14 |-> {"contexts_differ", "lost_failure", "failed_not_visible", "cleanup_lost", "cleanup_twice", "data_race", "context_dead_during_call", "hangs"},
+  [ C14 |-> {"contexts_differ", "lost_failure", "failed_not_visible", "cleanup_lost", "cleanup_twice", "data_race", "context_dead_during_call", "hangs",
+             "context_live_at_cleanup"},
     C15 |-> {"data_race", "draws_differ_when_shared", "shared_check_crashed", "value_modified_after_draw"} ]
 Verdicts == IF Property = "ALL" THEN UNION { VerdictOf[p] : p \in DOMAIN VerdictOf } ELSE VerdictOf[Property]
 
@@ -49,6 +50,10 @@ Ctx == /\ Is("ctx") /\ Adv
        /\ IF open /\ Ev.where \notin {"at-cleanup", "after"}
           THEN /\ ctxs' = ctxs \cup {Ev.id}
                /\ viol' = viol \cup If(Ev.err # "nil", "context_dead_during_call") \cup If(ctxs \ {Ev.id} # {}, "contexts_differ")
+          ELSE IF ~open /\ Ev.where = "in-cleanup"
+          \* a cleanup function asks for the context: cleanup() has cancelled and cleared it, and nothing may have created another one since
+          \* (Conc!AllCancelled: a goroutine that had seen "not cleaning up" before cleanup() began must look again under the lock)
+          THEN /\ ctxs' = ctxs /\ viol' = viol \cup If(Ev.err = "nil", "context_live_at_cleanup")
           ELSE IF ~open /\ Ev.where \notin {"at-cleanup", "after"} /\ Ev.err = "nil"
           \* a goroutine still running after the property function has returned (joined by a cleanup) is handed a LIVE context: it can only be the
           \* invocation's one (not yet cancelled) -- never a second one
